@@ -5,10 +5,11 @@ from __future__ import annotations
 import numpy as np
 from hypothesis import strategies as st
 
+from mzverif import core
 from mzverif import gen as G
 from mzverif import lib as L
 from mzverif import model as M
-from mzverif.core import Sub, call, require
+from mzverif.core import Sub, Violation, call, require
 
 ID = "C01"
 LEVEL = "exploration"
@@ -61,6 +62,83 @@ def check(case: dict):
     return {"nt": r >= 2 and c >= 2 and r * c >= 6, "labels": labels}
 
 
+def _validate(name, r, c, kw, m, where=""):
+    """the statement's clauses on one returned maze (used where mazes are produced several at a time)"""
+    cl = m.connection_list
+    require(isinstance(cl, np.ndarray) and tuple(cl.shape) == (2, r, c) and cl.dtype == np.bool_, f"C01:{name}:shape", f"{where}{getattr(cl, 'shape', None)} / {getattr(cl, 'dtype', None)} for requested {r}x{c}")
+    g = M.g_from_cl(cl)
+    bad = M.boundary_bits_set(g)
+    require(not bad, f"C01:{name}:connection-leaves-grid", f"{where}boundary bits set {bad} on {r}x{c} with {kw}")
+    if name in ("gen_dfs", "gen_wilson") and not kw:
+        require(M.is_spanning_tree(g), f"C01:{name}:not-spanning-tree", f"{where}{r}x{c}: {M.n_edges(g)} connections (need {r * c - 1}); bits={g['cl']}")
+    if name == "gen_percolation" and kw.get("p") == 0:
+        require(M.n_edges(g) == 0 and "1" not in g["cl"], "C01:percolation:p0-has-connections", f"{where}bits={g['cl']}")
+    if name == "gen_percolation" and kw.get("p") == 1:
+        require(M.n_edges(g) == r * (c - 1) + c * (r - 1), "C01:percolation:p1-missing-edges", f"{where}{M.n_edges(g)} lattice edges; bits={g['cl']}")
+
+
+def check_threads(case: dict):
+    """several threads of one process generate mazes at the same time (a data-loading thread next to the main thread, say). Which random
+    numbers each call gets then depends on the interleaving - the statement holds for every sequence of random choices - and every maze
+    handed back must satisfy it. The interleaving belongs to the interpreter: it is sampled (short switch interval), not enumerated."""
+    import sys
+    import threading
+
+    from maze_dataset.generation.generators import GENERATORS_MAP
+
+    L.seed_globals(case["np_seed"], case["py_seed"])
+    results: list = [[] for _ in case["threads"]]
+    errors: list = []
+    start = threading.Barrier(len(case["threads"]))
+
+    def work(k, jobs):
+        try:
+            start.wait()
+            for name, r, c, kw in jobs:
+                results[k].append((name, r, c, kw, GENERATORS_MAP[name](np.array([r, c]), **kw)))
+        except BaseException as e:  # noqa: BLE001
+            errors.append((k, e))
+
+    old = sys.getswitchinterval()
+    sys.setswitchinterval(1e-6)
+    try:
+        ths = [threading.Thread(target=work, args=(k, jobs)) for k, jobs in enumerate(case["threads"])]
+        for t in ths:
+            t.start()
+        for t in ths:
+            t.join()
+    finally:
+        sys.setswitchinterval(old)
+    for k, e in errors:
+        if isinstance(e, Exception) and core.raised_in_library(e):
+            raise Violation(f"C01:threads:raises:{type(e).__name__}", f"thread {k}: {str(e)[:200]}")
+        raise e
+    n = 0
+    for k, res in enumerate(results):
+        for name, r, c, kw, m in res:
+            _validate(name, r, c, kw, m, where=f"[{len(case['threads'])} threads, thread {k}] ")
+            n += 1
+    return {"nt": len(case["threads"]) >= 2 and n >= 4, "labels": [f"threads:{len(case['threads'])}"] + sorted({j[0] for jobs in case["threads"] for j in jobs})}
+
+
+@st.composite
+def _threads(draw):
+    def job():
+        name = draw(st.sampled_from(["gen_dfs", "gen_dfs", "gen_wilson", "gen_dfs_percolation", "gen_percolation", "gen_prim"]))
+        r, c = draw(st.sampled_from([(8, 8), (5, 7), (3, 3), (6, 4), (10, 10), (2, 9)]))
+        kw = {"p": draw(st.sampled_from([0.0, 1.0, 0.4]))} if "percolation" in name else {}
+        return [name, r, c, kw]
+
+    nthreads = draw(st.sampled_from([2, 3, 4, 4]))
+    same = draw(st.booleans())  # all threads run the same generator (contention on whatever that generator shares) or a mix
+    first = job()
+    threads = []
+    for _ in range(nthreads):
+        jobs = [list(first) if same else job() for _ in range(draw(st.integers(6, 14)))]
+        threads.append(jobs)
+    return {"threads": threads, "np_seed": draw(st.integers(0, 2**32 - 1)), "py_seed": draw(st.integers(0, 2**32 - 1))}
+
+
 def _strategy(hi, defaults_only=False, names=None):
     def s():
         return G.generator_call(lo=1, hi=hi, square=False, names=names, defaults_only=defaults_only)
@@ -100,4 +178,5 @@ def subs(tier: str):
             strategy=_strategy(hi if q else 20, defaults_only=True, names=["gen_dfs", "gen_wilson"]), examples=250 if q else 2000),
         Sub("elongated-grids", check, "hypothesis", strategy=lambda: _elongated([64, 140, 30, 100, 131] if q else [64, 30, 100, 48, 131, 150, 200, 257]), examples=8 if q else 60),
         Sub("percolation-extremes", check, "hypothesis", strategy=lambda: _perc_extremes(hi), examples=60 if q else 600),
+        Sub("concurrent-threads", check_threads, "hypothesis", strategy=_threads, examples=6 if q else 60, ambient=False),
     ]
